@@ -109,7 +109,11 @@ def _run(case, cfg, w):
             counters[who] += 1
             ev['idx'] = i
             lst = rets[who]
-            return [('ret', lst[i] if i in lst else None)]
+            # the handler may take a while (seeded); later messages arrive
+            # meanwhile
+            pause = w.choices.pick('app', (0.0, 0.0, 0.001, 0.004, 0.02),
+                                   'hpause')
+            return [('pause', pause), ('ret', lst[i] if i in lst else None)]
         return plan
     coroutine = cfg['coroutine'] and w.mode == 'async'
     for who, target, client in (('s', srv, False), ('c', c, True)):
